@@ -58,7 +58,7 @@ def wire_trace(ctx):
 
 def exh16_trace(ctx):
     cargo_build(ctx, "h_core")
-    extra = ["--full3", "1"] if ctx.tier == "thorough" else ["--n3", "1024", "--n4", "256"]
+    extra = ["--full3", "1", "--charall", "1"] if ctx.tier == "thorough" else ["--n3", "1024", "--n4", "256"]
     cmds = [([hbin("h_core"), "wire-exh16", "--seed", str(ctx.seed), "--shard", str(i), "--shards", str(NSH)] + extra, f"exh16-{i}.ndjson") for i in range(NSH)]
     return trace_stage(ctx, "exh16", cmds, "Trace_Wire")
 
@@ -507,6 +507,7 @@ def run_c01(ctx):
     wire_vectors(ctx)
     wire_trace(ctx)
     corpus_trace(ctx)
+    exh16_trace(ctx)     # entire 16-bit integer domain and (sampled / all) char blocks as intb / charb batches
 
 
 def run_c02(ctx):
@@ -514,6 +515,7 @@ def run_c02(ctx):
     wire_vectors(ctx)
     wire_trace(ctx)
     corpus_trace(ctx)
+    exh16_trace(ctx)
 
 
 def run_c03(ctx):
